@@ -128,7 +128,7 @@ def write_gro_text(records, comment='title', box=(3.0, 4.0, 5.0), declare=False,
         for r in records:
             f.writeline(list(r))
         f.close()
-        text = open(p).read()
+        text = open(p, encoding='utf-8').read()
         return (text, log.ops) if oplog else text
     finally:
         try:
